@@ -182,6 +182,8 @@ theorem top_roundtrip (sch : Schema) (lay : Layout) (he : lay.excluded = [])
     (H1 : (((fs.zip (kvs.map Prod.snd)).filter nonDefault).map (hdr f2h)).Nodup)
     (H2 : ∀ p ∈ fs.zip (kvs.map Prod.snd), nonDefault p = true → simpleName (hdr f2h p) = true)
     (H34 : ∀ cells, unparseRow sch lay (.model kvs) = .ok cells →
+      (∀ p ∈ fs.zip (kvs.map Prod.snd), nonDefault p = true → isBasicVal p.2 = true →
+        alookup (hdr f2h p) cells = some (printBasic p.2)) →
       ∀ p ∈ fs.zip (kvs.map Prod.snd), nonDefault p = true →
         (hdr f2h p = p.1.1 → remap h2f p.1.1 = p.1.1 ∧
           ∀ k, headSeg k = p.1.1 → ctxRemap sch cells k = .ok k) ∧
@@ -217,7 +219,31 @@ theorem top_roundtrip (sch : Schema) (lay : Layout) (he : lay.excluded = [])
     rw [zip_map_fst fs _ hlen] at this
     simpa [pathStr] using this
   refine ⟨absCols [] cols, hun, ?_⟩
-  have H := H34 _ hun
+  have hcolsOk : ∀ c ∈ cols, c.1 ≠ [] ∧ ∀ x ∈ c.1, SegOk x := by
+    intro c hc
+    obtain ⟨p, hp, hpn, r, e, hr, _⟩ := hK c hc
+    rw [e]
+    refine ⟨by simp, ?_⟩
+    intro x hx
+    rcases List.mem_cons.mp hx with rfl | hx
+    · exact segOk_simple (H2 p hp hpn)
+    · exact hr x hx
+  have hkeysnd : ((absCols [] cols).map Prod.fst).Nodup := by
+    have : (absCols [] cols).map Prod.fst = (cols.map (·.1)).map keyOf := by
+      simp [absCols, List.map_map, Function.comp]
+    rw [this]
+    apply nodup_map_on _ _ hN
+    intro a ha b hb hab
+    obtain ⟨ca, hca, rfl⟩ := List.mem_map.mp ha
+    obtain ⟨cb, hcb, rfl⟩ := List.mem_map.mp hb
+    exact keyOf_inj (hcolsOk ca hca).1 (hcolsOk cb hcb).1 (hcolsOk ca hca).2 (hcolsOk cb hcb).2 hab
+  have H := H34 _ hun (by
+    intro p hp hpn hpb
+    apply alookup_of_mem_nodup _ hkeysnd
+    have := hB p hp hpn hpb
+    have h2 : (keyOf ([] ++ [hdr f2h p]), printBasic p.2) ∈ absCols [] cols :=
+      List.mem_map.mpr ⟨_, this, rfl⟩
+    simpa [keyOf_cons, pathStr] using h2)
   -- what the context remap does to every written header
   let g : Str → Str := fun k => match ctxRemap sch (absCols [] cols) k with
     | .ok k' => k'
